@@ -40,6 +40,7 @@ def dispatch (line : String) : String :=
     | "clientaddr" => cmdClientAddr m
     | "cookie" => cmdCookie m
     | "ntlm" => cmdNtlm m
+    | "route" => cmdRoute m
     | "download" => cmdDownload m
     | "oidc-callback" => cmdOidcCallback m
     | "kdc-decode" => cmdKdcDecode m
